@@ -256,9 +256,12 @@ class Engine:
         s.sequential = len(names) == 1 and final is None
         if not s.D and not s.sequential: s.seed_domains(names)
         rounds = 0; with_final = final is None
+        if not hasattr(s, 'heap_base'): s.heap_base = s.heap; s.allocs_base = len(getattr(s, 'allocs', []))
+        s.heap = s.heap_base                     # allocation addresses are identical in every exploration round
+        if hasattr(s, 'allocs'): del s.allocs[s.allocs_base:]
         while True:
             rounds += 1
-            s.prev_writes = [e for e in s.events if e.kind == 'W'] if rounds > 1 else []
+            s.prev_writes = [e for e in s.events if e.kind == 'W']
             s._sub_memo = {}; s._sub_calls = 0; s._vs_memo = {}
             s.events = []; s.asserts = []; s.assumes = []; s.exceeded = []; s.stuck = []; s.futex_waits = []
             s.writes_seen = set(); s.oblig = []; s.D_grew = False; s.wt_new = False
@@ -275,6 +278,7 @@ class Engine:
             if rounds > 8: break
             s.may_written |= new
             s.heap = heap0
+            if hasattr(s, 'allocs'): del s.allocs[s.allocs_base:]
         s.rounds = rounds
 
     def explore_one(s, tid, fname, final=False):
@@ -596,6 +600,16 @@ class Engine:
         if getattr(s, 'sequential', False) and s.phase == 'threads': return is_c(addr)
         return is_c(addr) and addr >= STACK_BASE
 
+    def split_cands(s, p, addr, text):
+        """candidates of a symbolic pointer: (own-stack addresses, shared addresses); other threads' stacks are dropped
+        (the recorded enumeration obligation makes a reachable cross-thread stack access an inconclusive result)"""
+        cands = s.enum_values(addr, p.pc, record=False)
+        lo = STACK_BASE + (s.tid + 1) * 0x100000000; hi = lo + 0x100000000
+        priv = [a for a in cands if lo <= a < hi]
+        shared = [a for a in cands if a < STACK_BASE]
+        s.oblig.append(('enum', list(p.pc), addr, priv + shared))
+        return priv, shared
+
     def seq_load(s, p, addr, size):
         cands = s.enum_values(addr, p.pc, limit=256, record=False)
         if not cands: return None
@@ -629,25 +643,34 @@ class Engine:
         if is_c(addr) and not rmw and not s.wild and s.phase == 'threads':
             if s.is_final:
                 # the epilogue runs alone after every thread: a location it has already read (or written) cannot change
-                if all(p.mem.get(addr + i) is not None for i in range(size)): return p.mem.load(addr, size), None
+                if all((addr + i) in p.mem.d for i in range(size)): return p.mem.load(addr, size), None
             elif all(s.wtids.get(addr + i, set()) <= {s.tid} for i in range(size)):
                 # only this thread ever writes these bytes: the load returns its own po-latest store (coherence)
                 return p.mem.load(addr, size, undef=s.init_byte), None
+        vpriv = None; inpriv = None
         if not is_c(addr) and s.phase == 'threads':
-            cands = s.enum_values(addr, p.pc)
-            npriv = sum(1 for a in cands if a >= STACK_BASE)
-            if cands and npriv == len(cands):        # symbolic pointer into the thread's own stack: path-local
-                v = None
-                for a in cands:
+            priv, shared = s.split_cands(p, addr, text)
+            if priv:                                  # symbolic pointer that may point into the thread's own stack
+                for a in priv:
                     x = p.mem.load(a, size, undef=lambda q: s.fresh('undef', 8))
-                    v = x if v is None else s.ite_b(tobv(addr, 64) == a, x, v, 8 * size)
-                return v, None
-            if npriv: raise Unsupported('pointer may target both stack and shared memory: %s' % text[:80])
+                    vpriv = x if vpriv is None else s.ite_b(tobv(addr, 64) == a, x, vpriv, 8 * size)
+                if not shared: return vpriv, None
+                if rmw: raise Unsupported('atomic RMW through a pointer that may target the stack: %s' % text[:80])
+                inpriv = z3.Or(*[tobv(addr, 64) == a for a in priv])
+            elif not shared:
+                p.dead = True
+                s.asserts.append((list(p.pc), z3.BoolVal(False), 'load through pointer with no valid target: ' + text[:60], s.tid))
+                return 0, None
         v = s.fresh('r', 8 * size)
+        if inpriv is not None: p.pc.append(z3.Not(inpriv))
         e = s.new_event(p, 'R', addr, size, v, order, text)
+        if inpriv is not None: p.pc.pop()
         s.read_of_var[str(v)] = e
-        if not is_c(addr): s.addr_set(e)          # enumerate now, while the writers of the index reads are known
+        if not is_c(addr):
+            e.aset = set(a for a in shared if s.in_alloc(a, size))
+            s.oblig.append(('enum', list(e.guard), addr, sorted(e.aset)))
         elif s.is_final and s.phase == 'threads' and not rmw: p.mem.store(addr, size, v)
+        if inpriv is not None: return s.ite_b(inpriv, vpriv, v, 8 * size), e
         return v, e
 
     def init_byte(s, a):
@@ -674,20 +697,26 @@ class Engine:
             if is_c(addr): p.mem.store(addr, size, val)
             elif s.is_final: raise Unsupported('symbolic-address store in vf_final')
             else:
-                cands = s.enum_values(addr, p.pc)
-                npriv = sum(1 for a in cands if a >= STACK_BASE)
-                if cands and npriv == len(cands):
-                    for a in cands:
-                        old = p.mem.load(a, size, undef=lambda q: s.fresh('undef', 8))
-                        p.mem.store(a, size, s.ite_b(tobv(addr, 64) == a, val, old, 8 * size))
+                priv, shared = s.split_cands(p, addr, text)
+                for a in priv:
+                    old = p.mem.load(a, size, undef=lambda q: s.fresh('undef', 8))
+                    p.mem.store(a, size, s.ite_b(tobv(addr, 64) == a, val, old, 8 * size))
+                if not shared:
+                    if not priv: s.asserts.append((list(p.pc), z3.BoolVal(False), 'store through pointer with no valid target: ' + text[:60], s.tid))
                     return None
-                if npriv: raise Unsupported('pointer may target both stack and shared memory: %s' % text[:80])
+                if priv: p.pc.append(z3.Not(z3.Or(*[tobv(addr, 64) == a for a in priv])))
+                e = s.new_event(p, 'W', addr, size, val, order, text)
+                if priv: p.pc.pop()
+                e.aset = set(a for a in shared if s.in_alloc(a, size))
+                s.oblig.append(('enum', list(e.guard), addr, sorted(e.aset)))
+                s.note_write(p, addr, size, val, addrs=sorted(e.aset))
+                return e
         e = s.new_event(p, 'W', addr, size, val, order, text)
         s.note_write(p, addr, size, val)
         return e
 
-    def note_write(s, p, addr, size, val=None):
-        addrs = [addr] if is_c(addr) else s.enum_values(addr, p.pc)
+    def note_write(s, p, addr, size, val=None, addrs=None):
+        if addrs is None: addrs = [addr] if is_c(addr) else s.enum_values(addr, p.pc)
         vals = None
         if is_c(val): vals = [val]
         elif val is not None:
@@ -798,7 +827,9 @@ class Engine:
         return vals
 
     def valset(s, e, depth, cap):
-        """finite set of values read event e may return (heuristic, obligation-backed), or None"""
+        """replacements for the value of read event e (heuristic, obligation-backed): concrete values where the possible
+        writers' values enumerate, otherwise the writers' value TERMS (e.g. tagged pointers whose tag is a clock value:
+        the consumer masks the tag off, so the substituted address term still folds to a constant); or None"""
         if depth > 2: return s.pre_run_values(e)
         memo = s.__dict__.setdefault('_vs_memo', {})
         k = (id(e), depth)
@@ -810,15 +841,18 @@ class Engine:
             ws = s.writers_of(e)
             out = None
             if ws is not None:
-                out = set()
+                vals = set(); terms = []
                 for w in ws:
-                    if is_c(w): out.add(w); continue
+                    if is_c(w): vals.add(w); continue
                     r = s.subst_enum(w, depth + 1, cap)
-                    if r is None: out = None; break
-                    out |= r
-                    if len(out) > cap: out = None; break
+                    if r is not None: vals |= r
+                    elif not any(w.eq(u) for u in terms): terms.append(w)
+                    if len(vals) + len(terms) > cap: vals = None; break
+                if vals is not None: out = sorted(vals) + terms
         finally: st.pop()
-        if out is None: out = s.pre_run_values(e)
+        if out is None:
+            out = s.pre_run_values(e)
+            if out is not None: out = sorted(out)
         memo[k] = (e, out)
         return out
 
@@ -841,10 +875,10 @@ class Engine:
             if vals is None: return None
             n *= max(1, len(vals))
             if n > cap: return None
-            choices.append((e.val, 8 * e.size, sorted(vals)))
+            choices.append((e.val, 8 * e.size, list(vals)))
         out = set()
         for combo in itertools.product(*[c for _, _, c in choices]):
-            t2 = z3.substitute(term, *[(var, z3.BitVecVal(val, w)) for (var, w, _), val in zip(choices, combo)])
+            t2 = z3.substitute(term, *[(var, tobv(val, w)) for (var, w, _), val in zip(choices, combo)])
             t2 = simp(t2)
             if is_c(t2): out.add(t2); continue
             r = s.subst_enum(t2, depth + 1, cap)
@@ -1524,7 +1558,15 @@ class Engine:
                     iv = x if iv is None else z3.If(tobv(r.addr, 64) == av, x, iv)
             rfv = [z3.Bool('rf_%d_%d_%d_%d' % (wc[0].id, wc[1], r.id, roff)) for wc, _ in cands] + [z3.Bool('rf_init_%d_%d' % (r.id, roff))]
             nrf += len(rfv)
-            S.add(z3.Implies(G[r.id], z3.PbEq([(v, 1) for v in rfv], 1)))
+            if is_c(raddr):
+                S.add(z3.Implies(G[r.id], z3.PbEq([(v, 1) for v in rfv], 1)))
+            else:
+                # an address outside the enumerated candidate set reads an arbitrary value: keeps the access reachable so
+                # that its enumeration obligation (checked first) cannot be masked by the read's own rf constraints
+                wild = z3.Bool('rf_wild_%d_%d' % (r.id, roff))
+                S.add(z3.Implies(G[r.id], z3.PbEq([(v, 1) for v in rfv + [wild]], 1)))
+                S.add(z3.Implies(wild, z3.And(*[tobv(r.addr, 64) != av for av in sorted(s.addr_set(r))])))
+                if iv is None: iv = z3.BitVecVal(0, 8 * g)
             # L = clock of the coherence-latest write visible to r (external writes earlier in the global order and the
             # thread's own po-earlier writes); the source of r is exactly that write -- linear in the number of candidates
             L = z3.Int('L_%d_%d' % (r.id, roff))
@@ -1601,6 +1643,16 @@ class Engine:
         m = S.model() if r == z3.sat else None
         S.pop()
         return str(r), m, dt
+
+    def violated_obligs(s, m):
+        out = []
+        ev = lambda t: z3.is_true(m.eval(t, model_completion=True))
+        for (kind, pc, term, vals) in s.oblig:
+            if not all(ev(c) for c in pc): continue
+            if kind == 'prune': out.append(('prune', pc[-1].sexpr()[:200], None)); continue
+            v = m.eval(term, model_completion=True).as_long()
+            if v not in vals: out.append(('enum', term.sexpr()[:300], v, vals[:8]))
+        return out
 
     def widen(s, m):
         n = 0
